@@ -170,6 +170,7 @@ type C11World struct {
 	early    *Violation
 	more     []*Violation
 	closed   bool
+	cfgMu    sync.Mutex
 }
 
 func (w *C11World) script(k int) C11ConnScript {
@@ -259,6 +260,7 @@ func NewC11World(sim *Sim, plan *C11Plan) *C11World {
 	ev := w.ev
 	simrt.Go("configure", func() {
 		err := http2.ConfigureClient(w.hc, http2.ClientOpts{MaxResponseTime: plan.MaxResponseTime, PingInterval: plan.PingInterval})
+		appSync(&w.cfgMu) // an application configures its client before it hands it to anybody
 		ev <- c11Event{kind: "configured", err: err}
 	})
 	return w
@@ -268,6 +270,7 @@ func (w *C11World) startCaller(k int) {
 	q := w.plan.Reqs[k]
 	ev := w.ev
 	simrt.Go("rt"+strconv.Itoa(k), func() {
+		appSync(&w.cfgMu)
 		idem := q.Method == "GET"
 		for attempt := 0; attempt < 3; attempt++ {
 			req := &fasthttp.Request{}
@@ -880,6 +883,7 @@ func RunC11(plan *C11Plan, tape *Tape, searchSeed uint64) *RunResult {
 		if w.cl != nil {
 			cl, ev := w.cl, w.ev
 			simrt.Go("client-close", func() {
+				appSync(&w.cfgMu)
 				_ = cl.Close()
 				ev <- c11Event{kind: "closed"}
 			})
